@@ -604,17 +604,18 @@ func c15r2(c *Ctx) {
 // Returns P.
 func c15AvailableFacts(p *Program, fs []Fact) (ssa.Value, []string) {
 	var missing []string
-	var cond *ssa.Call
+	var cond ssa.Value
 	var P ssa.Value
-	isCond := func(v ssa.Value) (*ssa.Call, ssa.Value) {
-		call, _ := asCall(v)
-		if call == nil || !isCallTo(call.Common(), pkgMeta+".FindStatusCondition") || len(call.Common().Args) != 2 || !isStringConst(call.Common().Args[1], "Available") {
+	// the lookup of the Available condition (FindStatusCondition or an equivalent spelling): returns
+	// the value identifying the lookup and the object whose conditions are searched
+	isCond := func(v ssa.Value) (ssa.Value, ssa.Value) {
+		id, conds, typ, ok := p.pfFoundCondition(v)
+		if !ok || typ != "Available" {
 			return nil, nil
 		}
-		x := c09ConditionsOwner(p, call.Common().Args[0])
-		return call, x
+		return id, c09ConditionsOwner(p, conds)
 	}
-	fieldOfCond := func(v ssa.Value, field string) (*ssa.Call, ssa.Value) {
+	fieldOfCond := func(v ssa.Value, field string) (ssa.Value, ssa.Value) {
 		u, ok := v.(*ssa.UnOp)
 		if !ok || u.Op != token.MUL {
 			return nil, nil
@@ -680,7 +681,7 @@ func c15r3(c *Ctx) {
 	// the phase parameter (for the no-class no-op)
 	classEmpty := func(fs []Fact) bool {
 		for _, f := range fs {
-			x, nonEmptyWhenTrue, ok := lenCmp(f.Cond)
+			x, nonEmptyWhenTrue, ok := pfEmptyCmp(f.Cond)
 			if !ok || f.Pol == nonEmptyWhenTrue {
 				continue
 			}
@@ -714,11 +715,15 @@ func c15r3(c *Ctx) {
 	var curP ssa.Value
 	nZero := 0
 	// the status decision tree may live in an extracted helper: its returns are judged in place
-	for _, rc := range p.mwExpandResult(p.returnCases(fn), 1) {
+	// … and a result collected in one local and returned once is judged per reaching definition
+	for _, cc := range p.pfSplitCollected(p.mwExpandResult(p.returnCases(fn), 1), 1) {
+		rc := cc.ReturnCase
 		if len(rc.Results) != 3 || !isNilConst(stripConv(rc.Results[2])) {
 			continue
 		}
-		if !mwIsZeroStructConst(rc.Results[1]) {
+		if cc.Written == pfMaybeWritten {
+			// some paths through this edge leave the collected result untouched: judged as a zero result
+		} else if !mwIsZeroStructConst(rc.Results[1]) {
 			if rc.Results[1] == nil {
 				c.Ob(fn, "return-unresolved-result", rc.Ret, "probing result of a successful return must be resolvable").Unknown("several values may flow into the probing result at %s", p.IPos(rc.Ret))
 			}
@@ -851,15 +856,32 @@ func c15r4(c *Ctx) {
 			get = call
 		}
 	}
+	// metav1.IsControlledBy(<phase object>, objectSet.ClientObject()) — the library call or the same
+	// predicate written out (pfControlledBy)
+	controlledTri := func(fs []Fact) tri {
+		return p.pfControlledBy(fs,
+			func(o ssa.Value) bool { return p.sameValue(o, del.Obj) },
+			func(w ssa.Value) bool {
+				co, _ := asCall(w)
+				return co != nil && calleeName(co.Common()) == "ClientObject" && c15IsParam(callRecv(co.Common()))
+			})
+	}
 	controlled := func(fs []Fact, pol bool) bool {
-		_, ok := p.findFactCall(fs, pol, []string{pkgMetaV1 + ".IsControlledBy"}, func(cc *ssa.CallCommon) bool {
-			if len(cc.Args) != 2 || !p.sameValue(cc.Args[0], del.Obj) {
-				return false
-			}
-			co, _ := asCall(cc.Args[1])
-			return co != nil && calleeName(co.Common()) == "ClientObject" && c15IsParam(callRecv(co.Common()))
-		})
-		return ok
+		want := noTri
+		if pol {
+			want = yesTri
+		}
+		return controlledTri(fs) == want
+	}
+	// a disjunctive guard (`a || b`) reaches the guarded block through several edges: judged per edge
+	holdsAtReturn := func(rc ReturnCase, pred func([]Fact) bool) bool {
+		if pred(rc.Facts) {
+			return true
+		}
+		if rc.Pred != nil {
+			return p.mwHoldsOnAllPaths(rc.Pred, pred)
+		}
+		return p.mwHoldsOnAllPaths(rc.Ret.Block(), pred)
 	}
 	notFoundOf := func(fs []Fact, src *ssa.Call) bool {
 		if src == nil {
@@ -947,7 +969,7 @@ func c15r4(c *Ctx) {
 				c.Ob(fn, "done-get-notfound", rc.Ret, stmt).OK("T:IsNotFound(Get)")
 			case notFoundOf(rc.Facts, delCall):
 				c.Ob(fn, "done-delete-notfound", rc.Ret, stmt).OK("T:IsNotFound(Delete)")
-			case controlled(rc.Facts, false) && get != nil && p.errOfCallIsNil(rc.Facts, get):
+			case holdsAtReturn(rc, func(fs []Fact) bool { return controlled(fs, false) }) && get != nil && p.errOfCallIsNil(rc.Facts, get):
 				c.Ob(fn, "done-orphaned", rc.Ret, stmt).OK("F:IsControlledBy (orphaned phase)")
 			default:
 				c.Ob(fn, "done-unjustified", rc.Ret, stmt).Fail("done=true without IsNotFound(Get), IsNotFound(Delete) or !IsControlledBy")
@@ -1165,18 +1187,167 @@ func keysOf(m map[string]bool) []string {
 // ---------------------------------------------------------------------------------------------
 // R6
 
+// c15Search is the view of an adoption search function: the function itself plus the predicate
+// closures of the slices.ContainsFunc / slices.IndexFunc calls it is written with. A search loop
+//
+//	for _, e := range S { if cond(e) { return true } }; return false
+//
+// and `return slices.ContainsFunc(S, func(e) bool { return cond(e) })` examine the same elements in
+// the same order; the closure body is the loop body, its parameter is the element, `return false`
+// in it is `continue`, and variables of the enclosing function are read through captures.
+type c15Search struct {
+	p      *Program
+	root   *ssa.Function
+	obj    *ssa.Parameter
+	prevs  *ssa.Parameter
+	elemOf map[*ssa.Function]ssa.Value // predicate closure -> slice it is applied to (value of the function that makes the call)
+	calls  []*ssa.Call                 // the search calls
+}
+
+func (s *c15Search) collect(fn *ssa.Function, d int) {
+	if d > 4 {
+		return
+	}
+	for _, cc := range callsIn(fn) {
+		call, ok := cc.Instr.(*ssa.Call)
+		if !ok {
+			continue
+		}
+		if sl, pred, _, isSearch := pfSearchCall(call); isSearch && pred.Parent() == fn {
+			if _, dup := s.elemOf[pred]; !dup {
+				s.elemOf[pred] = sl
+				s.calls = append(s.calls, call)
+				s.collect(pred, d+1)
+			}
+		}
+	}
+}
+
+// values: what may flow into v, looking through variables captured by the closures.
+func (s *c15Search) values(v ssa.Value) []ssa.Value {
+	var out []ssa.Value
+	for _, pv := range s.p.possibleValues(stripConv(v)) {
+		if u, ok := pv.(*ssa.UnOp); ok && u.Op == token.MUL {
+			if vals, ok := s.p.pfCapturedValues(u.X); ok {
+				for _, x := range vals {
+					out = append(out, s.p.possibleValues(stripConv(x))...)
+				}
+				continue
+			}
+		}
+		out = append(out, pv)
+	}
+	return out
+}
+
+func (s *c15Search) single(v ssa.Value) ssa.Value {
+	if vals := s.values(v); len(vals) == 1 {
+		return stripConv(vals[0])
+	}
+	return stripConv(v)
+}
+
+func (s *c15Search) isObj(v ssa.Value) bool { return s.single(v) == ssa.Value(s.obj) }
+
+// isPrevElem: v is an element of the previous-revisions parameter: previous[i] in a loop, or the
+// parameter of a predicate closure applied to previous.
+func (s *c15Search) isPrevElem(v ssa.Value) bool {
+	v = s.single(v)
+	switch x := v.(type) {
+	case *ssa.UnOp:
+		if x.Op == token.MUL {
+			ia, ok := x.X.(*ssa.IndexAddr)
+			return ok && s.single(ia.X) == ssa.Value(s.prevs)
+		}
+	case *ssa.Parameter:
+		if sl, ok := s.elemOf[x.Parent()]; ok && len(x.Parent().Params) == 1 {
+			return s.single(sl) == ssa.Value(s.prevs)
+		}
+	}
+	return false
+}
+
+// isRemotesOfPrev: v is <element of previous>.GetRemotePhases().
+func (s *c15Search) isRemotesOfPrev(v ssa.Value) bool {
+	rp, _ := asCall(s.single(v))
+	return rp != nil && calleeName(rp.Common()) == "GetRemotePhases" && s.isPrevElem(callRecv(rp.Common()))
+}
+
+// isRemoteElem: v is an element of the remote phases of a previous revision.
+func (s *c15Search) isRemoteElem(v ssa.Value) bool {
+	v = s.single(v)
+	switch x := v.(type) {
+	case *ssa.UnOp:
+		if x.Op == token.MUL {
+			ia, ok := x.X.(*ssa.IndexAddr)
+			return ok && s.isRemotesOfPrev(ia.X)
+		}
+	case *ssa.Parameter:
+		if sl, ok := s.elemOf[x.Parent()]; ok && len(x.Parent().Params) == 1 {
+			return s.isRemotesOfPrev(sl)
+		}
+	}
+	return false
+}
+
+// c15Leaf is a return of the search function or of one of its predicate closures.
+type c15Leaf struct {
+	fn    *ssa.Function
+	rc    ReturnCase
+	konst *bool // constant result; nil: computed (Facts then include "result is true")
+	facts []Fact
+}
+
+func (s *c15Search) leaves(fn *ssa.Function, d int) []c15Leaf {
+	var out []c15Leaf
+	for _, rc := range s.p.returnCases(fn) {
+		if len(rc.Results) != 1 {
+			continue
+		}
+		r := rc.Results[0]
+		if b, isConst := constBool(r); isConst {
+			bb := b
+			out = append(out, c15Leaf{fn: fn, rc: rc, konst: &bb, facts: rc.Facts})
+			continue
+		}
+		if call, _ := asCall(r); call != nil && d < 4 {
+			if _, pred, index, isSearch := pfSearchCall(call); isSearch && !index {
+				if _, known := s.elemOf[pred]; known {
+					out = append(out, s.leaves(pred, d+1)...) // the result is true iff the predicate is, for some element
+					continue
+				}
+			}
+		}
+		out = append(out, c15Leaf{fn: fn, rc: rc, facts: append(append([]Fact{}, rc.Facts...), s.p.mkFact(r, true))})
+	}
+	return out
+}
+
 func c15r6(c *Ctx) {
 	p := c.P
 	var fns []*ssa.Function
-	for _, fn := range p.FuncsIn(pkgControllers) {
-		if fn.Signature.Results().Len() != 1 || fn.Signature.Results().At(0).Type().String() != "bool" {
-			continue
-		}
+	var reads func(fn *ssa.Function, d int) bool
+	reads = func(fn *ssa.Function, d int) bool {
 		for _, cc := range callsIn(fn) {
 			if calleeName(cc.Common) == "GetRemotePhases" {
-				fns = append(fns, fn)
-				break
+				return true
 			}
+		}
+		if d < 4 {
+			for _, af := range fn.AnonFuncs {
+				if reads(af, d+1) {
+					return true
+				}
+			}
+		}
+		return false
+	}
+	for _, fn := range p.FuncsIn(pkgControllers) {
+		if fn.Parent() != nil || fn.Signature.Results().Len() != 1 || fn.Signature.Results().At(0).Type().String() != "bool" {
+			continue
+		}
+		if reads(fn, 0) {
+			fns = append(fns, fn)
 		}
 	}
 	if len(fns) == 0 {
@@ -1185,89 +1356,33 @@ func c15r6(c *Ctx) {
 	}
 	for _, fn := range fns {
 		c.Visit(fn)
+		s := &c15Search{p: p, root: fn, elemOf: map[*ssa.Function]ssa.Value{}}
 		// obj parameter: the client.Object parameter
-		var obj *ssa.Parameter
-		var prevs *ssa.Parameter
 		for _, prm := range fn.Params {
 			if isClientObjectType(prm.Type()) {
-				obj = prm
+				s.obj = prm
 			}
 			if sl, ok := prm.Type().Underlying().(*types.Slice); ok && mwHasMethod(sl.Elem(), "GetRemotePhases") {
-				prevs = prm
+				s.prevs = prm
 			}
 		}
-		if obj == nil || prevs == nil {
+		if s.obj == nil || s.prevs == nil {
 			c.Ob(fn, "params", nil, "function takes the object and the previous revisions").Unknown("parameters not recognised")
 			continue
 		}
-		// element of previous: load of IndexAddr(prevs, _)
-		isPrevElem := func(v ssa.Value) bool {
-			u, ok := stripConv(v).(*ssa.UnOp)
-			if !ok || u.Op != token.MUL {
-				return false
-			}
-			ia, ok := u.X.(*ssa.IndexAddr)
-			return ok && ia.X == ssa.Value(prevs)
+		s.collect(fn, 0)
+		for pred := range s.elemOf {
+			c.Visit(pred)
 		}
 		loops := loopsOf(fn)
 		nTrue := 0
 		direct, remote := false, false
-		for _, rc := range p.returnCases(fn) {
-			r := rc.Results[0]
-			b, isConst := constBool(r)
-			if !isConst {
-				c.Ob(fn, "return-computed", rc.Ret, "result must be a decided constant per path").Unknown("result is %s", p.describe(r))
-				continue
-			}
-			if !b {
-				o := c.Ob(fn, "false-only-after-all", rc.Ret, "false is returned only after every previous revision and every remote phase was examined (no early exit from the loops)")
-				var problems []string
-				for _, l := range loops {
-					if l.Body[rc.Ret.Block()] {
-						problems = append(problems, "return false inside a loop")
-					}
-					for blk := range l.Body {
-						for _, s := range blk.Succs {
-							if l.Body[s] || blk == l.Head {
-								continue
-							}
-							// leaving the loop from the body: allowed only into a return-true / panic block or an enclosing loop's head (continue)
-							if isPanicBlock(s) {
-								continue
-							}
-							if ret, ok := s.Instrs[len(s.Instrs)-1].(*ssa.Return); ok && len(ret.Results) == 1 {
-								if bb, isC := constBool(ret.Results[0]); isC && bb {
-									continue
-								}
-							}
-							outer := false
-							for _, l2 := range loops {
-								if l2 != l && l2.Head == s && l2.Body[l.Head] {
-									outer = true
-								}
-							}
-							if outer {
-								continue
-							}
-							problems = append(problems, "loop at "+p.IPos(mwFirstInstr(l.Head))+" is left early at "+p.IPos(blk.Instrs[len(blk.Instrs)-1]))
-						}
-					}
-				}
-				if len(loops) < 2 {
-					problems = append(problems, fmt.Sprintf("expected a loop over previous revisions and one over their remote phases, found %d loop(s)", len(loops)))
-				}
-				if len(problems) > 0 {
-					o.Fail("%s", strings.Join(problems, "; "))
-				} else {
-					o.OK()
-				}
-				continue
-			}
-			nTrue++
-			o := c.Ob(fn, "true-under-IsController", rc.Ret, "true only when IsController(previous revision, obj) or IsController(<remote phase of a previous revision>, obj)")
-			okCase := false
+
+		// judge: do the facts justify a true result?
+		var judge func(lf c15Leaf, o *Obligation, d int) (bool, string)
+		judge = func(lf c15Leaf, o *Obligation, d int) (bool, string) {
 			why := "no IsController(_, obj) == true fact"
-			for _, f := range rc.Facts {
+			for _, f := range lf.facts {
 				if !f.Pol {
 					continue
 				}
@@ -1275,14 +1390,34 @@ func c15r6(c *Ctx) {
 				if call == nil {
 					continue
 				}
+				// `if slices.ContainsFunc(S, pred) { return true }`: justified when every way the
+				// predicate can answer true is
+				if _, pred, index, isSearch := pfSearchCall(call); isSearch && !index && d < 3 {
+					if _, known := s.elemOf[pred]; known {
+						all, n := true, 0
+						for _, sub := range s.leaves(pred, 0) {
+							if sub.konst != nil && !*sub.konst {
+								continue
+							}
+							n++
+							if ok, w := judge(sub, o, d+1); !ok {
+								all, why = false, w
+							}
+						}
+						if all && n > 0 {
+							return true, ""
+						}
+						continue
+					}
+				}
 				owner, o2, ok := ownerStrategyCall(call.Common(), "IsController")
-				if !ok || !p.sameValue(o2, obj) {
+				if !ok || !s.isObj(o2) {
 					continue
 				}
-				if co, _ := asCall(owner); co != nil && calleeName(co.Common()) == "ClientObject" && isPrevElem(callRecv(co.Common())) {
-					okCase, direct = true, true
+				if co, _ := asCall(owner); co != nil && calleeName(co.Common()) == "ClientObject" && s.isPrevElem(callRecv(co.Common())) {
+					direct = true
 					o.Note("controlled by a previous revision")
-					break
+					return true, ""
 				}
 				u, isAlloc := stripConv(owner).(*ssa.Alloc)
 				if !isAlloc || namedTypeString(u.Type()) != pkgUnstr+".Unstructured" {
@@ -1296,12 +1431,8 @@ func c15r6(c *Ctx) {
 						return false
 					}
 					fa := v.(*ssa.UnOp).X.(*ssa.FieldAddr)
-					fromRemotes := func(ia *ssa.IndexAddr) bool {
-						rp, _ := asCall(ia.X)
-						return rp != nil && calleeName(rp.Common()) == "GetRemotePhases" && isPrevElem(callRecv(rp.Common()))
-					}
 					if ia, ok := fa.X.(*ssa.IndexAddr); ok {
-						return fromRemotes(ia)
+						return s.isRemotesOfPrev(ia.X)
 					}
 					al, ok := fa.X.(*ssa.Alloc)
 					if !ok {
@@ -1312,24 +1443,16 @@ func c15r6(c *Ctx) {
 						if !ok || st.Addr != ssa.Value(al) {
 							continue
 						}
-						ld, ok := st.Val.(*ssa.UnOp)
-						if !ok {
+						if !s.isRemoteElem(st.Val) {
 							return false
 						}
-						ia, ok := ld.X.(*ssa.IndexAddr)
-						if !ok {
-							return false
-						}
-						rp, _ := asCall(ia.X)
-						if rp != nil && calleeName(rp.Common()) == "GetRemotePhases" && isPrevElem(callRecv(rp.Common())) {
-							return true
-						}
+						return true
 					}
 					return false
 				}
 				var missing []string
 				seen := map[string]bool{}
-				for _, cc := range callsIn(fn) {
+				for _, cc := range callsIn(u.Parent()) {
 					if !p.sameValue(callRecv(cc.Common), u) || len(callArgs(cc.Common)) != 1 {
 						continue
 					}
@@ -1342,13 +1465,13 @@ func c15r6(c *Ctx) {
 					case "SetNamespace":
 						g, _ := asCall(arg)
 						if g != nil && calleeName(g.Common()) == "GetNamespace" {
-							if co, _ := asCall(callRecv(g.Common())); co != nil && calleeName(co.Common()) == "ClientObject" && isPrevElem(callRecv(co.Common())) {
+							if co, _ := asCall(callRecv(g.Common())); co != nil && calleeName(co.Common()) == "ClientObject" && s.isPrevElem(callRecv(co.Common())) {
 								seen["namespace"] = true
 							}
 						}
 					case "SetGroupVersionKind":
 						kinds := map[string]bool{}
-						for _, v := range p.possibleValues(arg) {
+						for _, v := range s.values(arg) {
 							if wk, _ := asCall(v); wk != nil && calleeName(wk.Common()) == "WithKind" {
 								if k, ok := constString(callArgs(wk.Common())[0]); ok {
 									kinds[k] = true
@@ -1367,14 +1490,135 @@ func c15r6(c *Ctx) {
 					why = "remote phase owner stand-in lacks / mis-sets: " + strings.Join(missing, ", ")
 					continue
 				}
-				okCase, remote = true, true
+				remote = true
 				o.Note("controlled by a remote phase of a previous revision (name, uid from status.remotePhases; namespace of the revision; kind by scope)")
-				break
+				return true, ""
 			}
-			if okCase {
+			return false, why
+		}
+
+		nFalse := 0
+		for _, lf := range s.leaves(fn, 0) {
+			rc := lf.rc
+			if lf.konst != nil && !*lf.konst {
+				if lf.fn != fn {
+					continue // `return false` of a predicate closure: the search goes on with the next element
+				}
+				nFalse++
+				o := c.Ob(fn, "false-only-after-all", rc.Ret, "false is returned only after every previous revision and every remote phase was examined (no early exit from the loops)")
+				var problems []string
+				for _, l := range loops {
+					if l.Body[rc.Ret.Block()] {
+						problems = append(problems, "return false inside a loop")
+					}
+					for blk := range l.Body {
+						for _, sc := range blk.Succs {
+							if l.Body[sc] || blk == l.Head {
+								continue
+							}
+							// leaving the loop from the body: allowed only into a return-true / panic block or an enclosing loop's head (continue)
+							if isPanicBlock(sc) {
+								continue
+							}
+							if ret, ok := sc.Instrs[len(sc.Instrs)-1].(*ssa.Return); ok && len(ret.Results) == 1 {
+								if bb, isC := constBool(ret.Results[0]); isC && bb {
+									continue
+								}
+							}
+							outer := false
+							for _, l2 := range loops {
+								if l2 != l && l2.Head == sc && l2.Body[l.Head] {
+									outer = true
+								}
+							}
+							if outer {
+								continue
+							}
+							problems = append(problems, "loop at "+p.IPos(mwFirstInstr(l.Head))+" is left early at "+p.IPos(blk.Instrs[len(blk.Instrs)-1]))
+						}
+					}
+				}
+				if len(loops)+len(s.calls) < 2 {
+					problems = append(problems, fmt.Sprintf("expected a loop over previous revisions and one over their remote phases, found %d loop(s)", len(loops)+len(s.calls)))
+				}
+				if len(problems) > 0 {
+					o.Fail("%s", strings.Join(problems, "; "))
+				} else {
+					o.OK()
+				}
+				continue
+			}
+			nTrue++
+			o := c.Ob(fn, "true-under-IsController", rc.Ret, "true only when IsController(previous revision, obj) or IsController(<remote phase of a previous revision>, obj)")
+			if ok, why := judge(lf, o, 0); ok {
 				o.OK()
 			} else {
 				o.Fail("%s", why)
+			}
+		}
+		// searches written with slices.ContainsFunc: false is the answer only when the predicate was
+		// false for every element, so what has to hold is that the whole slices are searched and that
+		// the search results are what the function answers (loops inside predicate closures: as above)
+		if len(s.calls) > 0 {
+			o := c.Ob(fn, "false-only-after-all", nil, "false is returned only after every previous revision and every remote phase was examined (the searches cover all previous revisions and all their remote phases)")
+			var problems []string
+			overPrev, overRemotes := false, len(loops) > 0
+			for _, call := range s.calls {
+				sl := call.Common().Args[0]
+				switch {
+				case s.single(sl) == ssa.Value(s.prevs):
+					overPrev = true
+				case s.isRemotesOfPrev(sl):
+					overRemotes = true
+				default:
+					problems = append(problems, "the search at "+p.IPos(call)+" covers "+p.describe(sl)+", not all previous revisions / all remote phases of a previous revision")
+				}
+				// the search result must be what the enclosing function answers, or guard a `return true`
+				used := false
+				for _, r := range referrersOf(call) {
+					switch x := r.(type) {
+					case *ssa.Return:
+						used = true
+					case *ssa.If:
+						used = true
+						_ = x
+					case *ssa.DebugRef:
+					default:
+						problems = append(problems, "the result of the search at "+p.IPos(call)+" is used in a way that is not recognised ("+p.IPos(r)+")")
+					}
+				}
+				if !used {
+					problems = append(problems, "the result of the search at "+p.IPos(call)+" is dropped")
+				}
+				// loops inside the predicate must not give up early either
+				pred := pfFuncValue(call.Common().Args[1])
+				for _, l := range loopsOf(pred) {
+					for blk := range l.Body {
+						for _, sc := range blk.Succs {
+							if l.Body[sc] || blk == l.Head || isPanicBlock(sc) {
+								continue
+							}
+							if ret, ok := sc.Instrs[len(sc.Instrs)-1].(*ssa.Return); ok && len(ret.Results) == 1 {
+								if bb, isC := constBool(ret.Results[0]); isC && bb {
+									continue
+								}
+							}
+							problems = append(problems, "loop at "+p.IPos(mwFirstInstr(l.Head))+" is left early at "+p.IPos(blk.Instrs[len(blk.Instrs)-1]))
+						}
+					}
+					overRemotes = true
+				}
+			}
+			if !overPrev && len(loops) == 0 {
+				problems = append(problems, "no search over all previous revisions")
+			}
+			if !overRemotes {
+				problems = append(problems, "no search over the remote phases of a previous revision")
+			}
+			if len(problems) > 0 {
+				o.Fail("%s", strings.Join(problems, "; "))
+			} else {
+				o.OK(fmt.Sprintf("%d search call(s)", len(s.calls)))
 			}
 		}
 		if !direct || !remote {
